@@ -36,6 +36,16 @@ type caseRec struct {
 }
 
 // reply builds the key text a CA returns: n certificates with the given comment shapes.
+// heldResult is what an earlier Sign call returned, with what it must still read.
+type heldResult struct {
+	comments  []string
+	want      []string
+	certs     []ssh.PublicKey
+	wantBlobs []string
+}
+
+var held []heldResult
+
 func reply(rng interface{ Intn(int) int }, n int) (text string, certs []ssh.PublicKey, comments []string) {
 	now := uint64(time.Now().Unix())
 	var sb strings.Builder
@@ -224,6 +234,19 @@ func signing(r *ev.Run) {
 		var serr error
 		var cerr error
 		req := &proto.SSHCertificateSigningRequest{KeyMeta: &proto.KeyMeta{Identifier: "id-" + gen.Ident(c.Rand, 4)}, Principals: []string{"alice"}, PublicKey: "ssh-ed25519 AAAA", Validity: uint64(1 + c.Rand.Intn(100000)), KeyId: gen.Str(c.Rand, 30), Extensions: map[string]string{"permit-pty": ""}}
+		// every member of the message, the rarely used ones included: the request is the caller's, whole
+		switch idx % 4 {
+		case 1:
+			req.CriticalOptions = map[string]string{"force-command": "/usr/bin/true", "source-address": "10.0.0.0/8," + gen.IP(c.Rand) + "/32"}
+			req.Principals = []string{"alice", "alice:touch", gen.Str(c.Rand, 12)}
+		case 2:
+			req.CriticalOptions = map[string]string{"touchless-sudo-hosts": "h1,h2"}
+			req.Priority = proto.Priority(1 + c.Rand.Intn(3))
+			req.KeyMeta = nil
+		case 3:
+			req.Extensions, req.Principals = nil, nil
+			req.Priority = proto.Priority(c.Rand.Intn(4))
+		}
 		sent := gproto.Clone(req).(*proto.SSHCertificateSigningRequest)
 		if r.Guard(c, "Signer", rec, func() {
 			var signer *crypki.Signer
@@ -362,6 +385,25 @@ func signing(r *ev.Run) {
 				}
 			}
 			r.Count("first successful endpoint's certificates returned in order", 1)
+			// the caller keeps what it was handed; later signing calls (of this or another signer) leave it as it is
+			h := heldResult{comments: comments, want: append([]string(nil), comments...), certs: certs}
+			for _, pk := range certs {
+				h.wantBlobs = append(h.wantBlobs, string(pk.Marshal()))
+			}
+			if len(held) < 6 {
+				held = append(held, h)
+			} else {
+				held[idx%6] = h
+			}
+		}
+		for _, h := range held {
+			for i := range h.want {
+				if h.comments[i] != h.want[i] || string(h.certs[i].Marshal()) != h.wantBlobs[i] {
+					r.Violation(c, "result-changes-afterwards:sign", fmt.Sprintf("a result handed out by an earlier Sign call now reads comment %q / certificate changed=%v; it was %q", h.comments[i], string(h.certs[i].Marshal()) != h.wantBlobs[i], h.want[i]), rec)
+					held = nil
+					return
+				}
+			}
 		}
 		r.Nontrivial(sig + strings.Join(list, ","))
 		if idx < 4 {
